@@ -1011,6 +1011,10 @@ type HLazy struct {
 	Z    string `prefix:"c17h.zones.${c17h.zone}.host"`
 	ZV   string `value:"${c17h.zones.${c17h.zone}.host}"`
 	Gate string `value:"${c17h.gate:closed}"`
+	W    struct {
+		Key string `yaml:"key"`
+		N   int    `yaml:"n"`
+	} `prefix:"c17h"`
 	Runs int
 }
 
@@ -1034,6 +1038,12 @@ func TestRebindHistory(t *testing.T) {
 		zones := map[string]any{"east": map[string]any{"host": "east.example.org"}, "west": map[string]any{"host": "west.example.org"}}
 		doc, err := yaml.Marshal(map[string]any{"c17h": map[string]any{"m": m, "l": l, "key": cur["key"], "n": cur["n"], "zone": cur["zone"], "zones": zones}})
 		if err != nil {
+			t.Skip("yaml")
+		}
+		// reference for what "the configuration now gives": a binder of its own that receives the same document and
+		// the same Set calls but is never read in between (reads must not freeze anything)
+		ref := binder.NewViperBinder("yaml")
+		if err := ref.SetConfig(doc); err != nil {
 			t.Skip("yaml")
 		}
 		mut := &HMutator{Mutate: rapid.IntRange(0, 3).Draw(t, "mutate") != 0}
@@ -1091,9 +1101,16 @@ func TestRebindHistory(t *testing.T) {
 				default:
 					v = rapid.SampledFrom([]string{"open", "open", "ajar"}).Draw(t, "newgate")
 				}
-				out.App.Set("c17h."+k, v)
-				cur[k] = v
-				hist = append(hist, fmt.Sprintf("set %s=%v", k, v))
+				path := "c17h." + k
+				if rapid.IntRange(0, 3).Draw(t, "spelling") == 0 {
+					path = strings.ToUpper(path) // the same key as the binder sees it, spelled differently
+				}
+				out.App.Set(path, v)
+				ref.Set(path, v)
+				if got := ref.Get("c17h." + k); k != "gate" || got != nil {
+					cur[k] = got
+				}
+				hist = append(hist, fmt.Sprintf("set %s=%v", path, v))
 			}
 			_, err := out.App.GetComponentByName("c17h-lazy")
 			hist = append(hist, fmt.Sprintf("lookup fails=%v", err != nil))
@@ -1109,6 +1126,18 @@ func TestRebindHistory(t *testing.T) {
 			created = true
 			host := cur["zone"].(string) + ".example.org"
 			hctx := fmt.Sprintf("after history %v (attempt %d)", hist, lz.Runs)
+			// the section as a whole, bound by prefix: what a binder that was never read before gives for it now
+			sec, _ := ref.Get("c17h").(map[string]any)
+			wantKey, wantN := "", 0
+			if v, ok := sec["key"]; ok {
+				wantKey = fmt.Sprint(v)
+			}
+			if v, ok := sec["n"].(int); ok {
+				wantN = v
+			}
+			if lz.W.Key != wantKey || lz.W.N != wantN {
+				t.Fatalf("C17: struct bound with prefix \"c17h\" holds key=%q n=%d, the configuration now gives key=%q n=%d (section: %v) %s", lz.W.Key, lz.W.N, wantKey, wantN, sec, hctx)
+			}
 			for _, c := range []struct {
 				what      string
 				got, want any
